@@ -10,6 +10,7 @@ import (
 	"context"
 	"encoding/json"
 	"fmt"
+	"io"
 	"net"
 	"net/http"
 	"os"
@@ -816,6 +817,123 @@ func (s *sut) runSchedule(ls []label, leader0 uint64) ([2]*tstate, []string, str
 	return ts, sets, fail
 }
 
+// runOverlap: read A syncs (leader at r) and is parked before its scan; the leader's endpoint then behaves as
+// `mode`; read B runs to completion; A resumes.  Observed: B's response class, every SetCurrentRevision value,
+// A's scan revision and whether A saw data.
+func (s *sut) runOverlap(mode string) (lib.Case, string) {
+	s.configure(config{leader: false, proxy: false, reach: "ok"})
+	// something committed before A begins: written directly on the backend, revision r
+	ctx := context.Background()
+	// (the sequencer of this backend is not relied upon: configure() resets the committed revision for every
+	// case, so the revision the write was dealt is taken from its response; a scan at r reads it from the engine)
+	cr, cerr := s.inner.Create(ctx, &proto.CreateRequest{Key: []byte(fmt.Sprintf("/c18/overlap-%s", mode)), Value: []byte("v")})
+	if cerr != nil || cr == nil || !cr.Succeeded {
+		return lib.Case{Kind: "overlap-" + mode, Coq: lib.App("OverlapCase", lib.N(0), reachCoq(mode), "RespNone", "[]", lib.N(0), "false")}, "could not write the probe key"
+	}
+	r := cr.Header.Revision
+	atomic.StoreUint64(&s.st.rev, r)
+	s.inner.SetCurrentRevision(baseRev) // the follower is behind
+	s.rec.take()
+	fail := ""
+	d := 2 * time.Second
+	launch := func(name string) (*gthread, *tstate) {
+		t := &tstate{}
+		th := &gthread{name: name, arrive: make(chan string, 1), release: make(chan struct{}), done: make(chan struct{})}
+		t.th = th
+		ready := make(chan struct{})
+		go func() {
+			id := lib.GoID()
+			gmu.Lock()
+			gthreads[id] = th
+			gmu.Unlock()
+			close(ready)
+			c, cancel := context.WithTimeout(context.Background(), 20*time.Second)
+			defer cancel()
+			t.resp, t.err = s.etcd.Range(c, &etcdserverpb.RangeRequest{Key: []byte("/c18/"), RangeEnd: []byte("/c180")})
+			gmu.Lock()
+			delete(gthreads, id)
+			gmu.Unlock()
+			close(th.done)
+		}()
+		<-ready
+		return th, t
+	}
+	step := func(th *gthread, want string) {
+		if fail != "" {
+			return
+		}
+		if p, ok := waitPoint(th, want, d); !ok {
+			fail = "expected " + want + ", got " + p
+		}
+	}
+	// A: sync point, fetch (ungated endpoint), set, parked before List
+	thA, tA := launch("A")
+	step(thA, "sync")
+	thA.release <- struct{}{}
+	step(thA, "set")
+	thA.release <- struct{}{}
+	step(thA, "list")
+	// the leader's endpoint changes behaviour
+	switch mode {
+	case "unreachable":
+		s.stub.ElectionInfo.LeaderAddress = s.st.deadAddr
+	case "400":
+		s.st.mode.Store("400")
+	case "garbage":
+		s.st.mode.Store("garbage")
+	default:
+		atomic.StoreUint64(&s.st.rev, r+5)
+	}
+	// B runs to completion
+	thB, tB := launch("B")
+	step(thB, "sync")
+	thB.release <- struct{}{}
+	for k := 0; k < 3 && fail == ""; k++ {
+		p, _ := waitPoint(thB, "done", d)
+		if p == "done" {
+			break
+		}
+		if p == "timeout" {
+			fail = "B did not finish"
+			break
+		}
+		thB.release <- struct{}{}
+	}
+	// A resumes
+	if fail == "" {
+		thA.release <- struct{}{}
+		step(thA, "done")
+	}
+	calls := s.rec.take()
+	var sets []string
+	var setc []string
+	for _, c := range calls {
+		if strings.HasPrefix(c, "set:") {
+			var before, v uint64
+			fmt.Sscanf(c, "set:%d:%d", &before, &v)
+			sets = append(sets, c)
+			setc = append(setc, lib.N(v))
+		}
+	}
+	bresp := classify(tB.err)
+	var ascan uint64
+	anon := false
+	if tA.err == nil && tA.resp != nil && tA.resp.Header != nil {
+		ascan = uint64(tA.resp.Header.Revision)
+		anon = len(tA.resp.Kvs) > 0
+	}
+	reach := reachCoq(mode)
+	if mode == "ok" {
+		reach = lib.App("ReachOk", lib.N(r+5))
+	}
+	j := map[string]interface{}{"scenario": "overlap", "mode": mode, "r": r, "B": bresp, "sets": sets, "A_scan": ascan, "A_nonempty": anon, "A_err": fmt.Sprint(tA.err)}
+	// restore
+	s.stub.ElectionInfo.LeaderAddress = s.st.addr
+	s.st.mode.Store("ok")
+	return lib.Case{Kind: "overlap-" + mode, Coq: lib.App("OverlapCase", lib.N(r), reach, bresp, lib.List(setc), lib.N(ascan), lib.Bool(anon)),
+		JSON: j, Outcomes: []string{"overlap:" + bresp}}, fail
+}
+
 // mirror of the enabledness of Model/Roles.v, to generate complete enabled schedules
 func genSchedule(r *lib.Rand, nAdv int) []label {
 	pc := [2]int{0, 0} // 0 init 1 begun 2 wait 3 handled 4 joined 5 got 6 set 7 done
@@ -934,11 +1052,15 @@ func main() {
 		scheds = append(scheds, genSchedule(rnd, rnd.Intn(4)))
 		kindsS = append(kindsS, "schedule")
 	}
+	unrealised := 0
 	for i, ls := range scheds {
+		if unrealised >= 3 {
+			break // the gates no longer match the code: reported below, the role table carries the verdict
+		}
 		var ts [2]*tstate
 		var sets []string
 		fail := ""
-		for attempt := 0; attempt < 3; attempt++ {
+		for attempt := 0; attempt < 2; attempt++ {
 			ts, sets, fail = s.runSchedule(ls, 30)
 			if fail == "" {
 				break
@@ -974,12 +1096,25 @@ func main() {
 			JSON: j, Outcomes: []string{oc}, Trivial: len(ls) < 8}
 		w.Add(cs)
 		if fail != "" {
+			unrealised++
 			w.Fail(lib.ImplFailure{CaseID: w.Len() - 1, What: "schedule could not be realised on the real code: " + fail, Case: j})
 		}
 	}
 
+	// ---- part 2b: a failed fetch of one read must not disturb another read (coordinator scenario)
+	for _, mode := range []string{"unreachable", "400", "garbage", "ok"} {
+		if unrealised >= 3 {
+			break
+		}
+		cs, fail := s.runOverlap(mode)
+		w.Add(cs)
+		if fail != "" {
+			w.Fail(lib.ImplFailure{CaseID: w.Len() - 1, What: "overlap scenario could not be realised: " + fail, Case: cs.JSON})
+		}
+	}
+
 	// ---- part 3b: /status handler of server.NewServer in both roles
-	for _, sc := range stat.collect() {
+	for _, sc := range stat.collect(s) {
 		w.Add(sc)
 	}
 	// ---- part 3c: compaction loop (fires 60 s after brain.New)
@@ -1056,45 +1191,68 @@ func startStatusNodes(scratch string) *statusNodes {
 	return &statusNodes{hL: sl.GetPeerHttpHandlers()["/status"], hF: sf.GetPeerHttpHandlers()["/status"]}
 }
 
-type respRec struct {
-	code int
-	body []byte
-	h    http.Header
-}
 
-func (r *respRec) Header() http.Header {
-	if r.h == nil {
-		r.h = http.Header{}
-	}
-	return r.h
-}
-func (r *respRec) Write(b []byte) (int, error) { r.body = append(r.body, b...); return len(b), nil }
-func (r *respRec) WriteHeader(c int)            { r.code = c }
-
-func (s *statusNodes) collect() []lib.Case {
+func (s *statusNodes) collect(su *sut) []lib.Case {
 	var out []lib.Case
-	call := func(h http.Handler) *respRec {
-		rr := &respRec{}
-		req, _ := http.NewRequest("GET", "http://x/status", nil)
-		h.ServeHTTP(rr, req)
-		return rr
+	// both handlers behind real HTTP servers: what matters is the status on the wire
+	serve := func(h http.Handler) string {
+		ln, err := net.Listen("tcp", "127.0.0.1:0")
+		if err != nil {
+			return ""
+		}
+		mux := http.NewServeMux()
+		mux.Handle("/status", h)
+		go http.Serve(ln, mux)
+		return ln.Addr().String()
+	}
+	addrL, addrF := serve(s.hL), serve(s.hF)
+	get := func(addr string) (int, []byte) {
+		c := &http.Client{Timeout: 2 * time.Second}
+		resp, err := c.Get("http://" + addr + "/status")
+		if err != nil {
+			return -1, []byte(err.Error())
+		}
+		defer resp.Body.Close()
+		b, _ := io.ReadAll(resp.Body)
+		return resp.StatusCode, b
 	}
 	// the leader node needs the election to complete (first acquire is immediate)
-	var rl *respRec
-	lib.WaitUntil(8*time.Second, func() bool { rl = call(s.hL); return rl.code == 200 })
-	rf := call(s.hF)
+	var codeL int
+	var bodyL []byte
+	lib.WaitUntil(8*time.Second, func() bool { codeL, bodyL = get(addrL); return codeL == 200 })
+	codeF, bodyF := get(addrF)
+	var lrev revision.LeaderRevision
 	for _, x := range []struct {
-		r  *respRec
-		ld bool
-	}{{rl, true}, {rf, false}} {
+		code int
+		body []byte
+		ld   bool
+	}{{codeL, bodyL, true}, {codeF, bodyF, false}} {
 		resp := "RespError"
 		var lr revision.LeaderRevision
-		if x.r.code == 200 && json.Unmarshal(x.r.body, &lr) == nil {
+		if x.code == 200 && json.Unmarshal(x.body, &lr) == nil {
 			resp = "RespOk"
+			if x.ld {
+				lrev = lr
+			}
 		}
 		eff := lib.App("mkEff", resp, "false", "None", "BNone", "FNone")
 		out = append(out, lib.Case{Kind: "status-handler", Coq: lib.App("RoleCase", "StatusHandler", roleCoq(x.ld), "false", reachCoq("unreachable"), eff),
-			JSON: map[string]interface{}{"kind": "StatusHandler", "leader": x.ld, "code": x.r.code, "body": string(x.r.body)}, Outcomes: []string{fmt.Sprintf("status:%d", x.r.code)}})
+			JSON: map[string]interface{}{"kind": "StatusHandler", "leader": x.ld, "code": x.code, "body": string(x.body)}, Outcomes: []string{fmt.Sprintf("status:%d", x.code)}})
+	}
+	// end to end: the real syncer of a follower against the real /status of a non-leader and of the leader
+	for _, x := range []struct {
+		addr  string
+		reach string
+		name  string
+	}{{addrF, "Err400", "non-leader"}, {addrL, lib.App("ReachOk", lib.N(lrev.Revision)), "leader"}} {
+		su.configure(config{leader: false, proxy: false, reach: "ok"})
+		su.stub.ElectionInfo.LeaderAddress = x.addr
+		resp := su.invoke("ERangeList")
+		eff, j := su.effects(resp)
+		j["kind"], j["peer"] = "ERangeList", x.name
+		out = append(out, lib.Case{Kind: "status-end-to-end", Coq: lib.App("RoleCase", "ERangeList", "Follower", "false", x.reach, eff),
+			JSON: j, Outcomes: []string{"e2e-" + x.name + ":" + resp}})
+		su.stub.ElectionInfo.LeaderAddress = su.st.addr
 	}
 	return out
 }
